@@ -104,19 +104,23 @@ Print Assumptions C15_toc_outline.
 (* FULL statement (false, see C15_generate_total_refuted): a card is produced for every document
    of supported element types that starts with a header.
    PROVED: ... for every document all of whose blocks are convertible on their own.  Missing:
-   supported elements that the converter rejects (D27 inline images without "fig:" title or
-   without alt text, D28 tables without header row; also figures whose body is not a Plain
-   starting with an image) -- and content before the first header raises by design. *)
+   supported elements that the converter rejects (D28 tables without header row; also figures whose body is not a
+   Plain starting with an image; D27 -- inline images without "fig:" title or without alt text -- was repaired in /repo) -- and content before the first header raises by design. *)
 Theorem C15_generate_total_partial :
   forall bs, Forall convertible bs -> starts_with_header bs -> exists card, generate bs = Ok card.
 Proof. exact generate_total. Qed.
 Print Assumptions C15_generate_total_partial.
 
 Theorem C15_generate_total_refuted :
-  starts_with_header badge_doc /\ generate badge_doc = Raise EValue /\
   starts_with_header headerless_table_doc /\ generate headerless_table_doc = Raise EOther.
 Proof. exact generate_total_refuted. Qed.
 Print Assumptions C15_generate_total_refuted.
+
+(* the former D27 witness: a badge inside a line of text *)
+Theorem C15_inline_image_converts :
+  starts_with_header badge_doc /\ exists card, generate badge_doc = Ok card.
+Proof. exact badge_doc_converts. Qed.
+Print Assumptions C15_inline_image_converts.
 
 (* the guard is satisfiable: level jumps, a first header deeper than 1, '/', '\', edge
    blanks and U+001F in titles, the same title under different parents *)
